@@ -11,7 +11,7 @@ LEVEL = {
     "C02": "Deductive proof (Verus) of the real make_credential body against abstract store / user-validation / crypto contracts: exactly one credential appended, bound to the RP, id of configured length, attested key = public encoding and stored key = private encoding of the same secret, errors leave the store unchanged. Plus (unit clt) the dataflow of the real Client::register body over uninterpreted leaves (client data fields, request assembly, both authenticator-data copies from the same bytes, id = base64url(rawId)). Partial: what the JSON / CBOR / DER / Display leaves compute and p256 are not covered.",
     "C03": "Deductive proof (Verus) of the real get_assertion body: the signature is spec_sign(selected credential's key, authenticator data || client data hash), RP hash input and no attested data, returned id and user handle are the selected credential's, consent without eligible credential gives NoCredentials. Plus (unit clt) the dataflow of the real Client::authenticate body (client data, allow list as given, id / rawId / user handle, NoCredentials -> CredentialNotFound). Partial: ECDSA itself and the JSON / base64url leaves are assumed dependencies.",
     "C04": "Deductive proof (Verus) of check_user (complete truth table over options, capability, report, errors), make_credential and get_assertion: no success without the required consent, UP/UV bits exactly as reported, consent errors are returned whatever the store contains and leave it untouched, the credential shown for consent is the one that signs; the client maps userVerification != discouraged to uv in both ceremonies (unit clt).",
-    "C05": "Deductive proof (Verus) for the authenticator against the documented store lookup contract: the selected credential is the first the store lists for (allow list or none when absent/empty, RP), bound to the RP and named in a non-empty allow list; exclusion fails the registration with the store unchanged. The client passes allow / exclude lists unchanged (unit clt). The shipped stores are not decided.",
+    "C05": "Deductive proof (Verus) for the authenticator against the documented store lookup contract: the selected credential is the first the store lists for (allow list or none when absent/empty, RP), bound to the RP and named in a non-empty allow list; exclusion fails the registration with the store unchanged. The client passes allow / exclude lists unchanged (unit clt). The shipped stores Option<Passkey> and MemoryStore are checked against the same contract written on the trait declaration (unit sto): three clauses fail on the unchanged tree and are recorded as known findings D7a-c (RP ID ignored by both stores; id-less lookup of the in-memory store finds nothing).",
     "C06": "Deductive proof (Verus), narrow: the attested credential key is the public COSE encoding and the stored key the private COSE encoding of the same fresh secret (key routing). Non-interference over all serialisations is not a contract and is not covered.",
     "C07": "Deductive proof (Verus) that every error path of make_credential / get_assertion leaves the store view unchanged (or changed only by the selected credential's counter), store errors are propagated, success implies the store accepted the write; each store call may fail with any status. Cancellation is covered only by a structural check of the text.",
     "C08": "Deductive proof (Verus): registration reports Some(0)/None as configured, an assertion reports exactly stored+1 below 2^32-1, never a smaller value at 2^32-1, no arithmetic overflow, and a credential without counter is not rewritten.",
